@@ -24,7 +24,7 @@ func ExecuteAny(spec *RunSpec, opts RunOpts) *RunResult {
 	switch spec.Scenario {
 	case "S-CORRUPT":
 		return ExecuteCorrupt(spec, opts)
-	case "S-SHARE", "S-SHARE-RACE":
+	case "S-SHARE", "S-SHARE-RACE", "S-SHARE-STMT":
 		return ExecuteShare(spec, opts)
 	case "S-GROW":
 		return ExecuteGrow(spec, opts)
